@@ -12,7 +12,10 @@ class C06(Prop):
         F7 = execgen.mk_case("fn", "full_sync", 4, 0, 0, [(200, False), (200, False)])
         return [Suite("exec", execgen.HEADER, [F7] + [execgen.gen_case(rng, maxL=4) for _ in range(n)]),
                 # executor limit 1 with a pipeline that itself reads ahead (`.buffered(R)`): close must still wait for every item (oracle only)
-                Suite("read_ahead_pipeline(oracle only)", execgen.HEADER, [execgen.gen_readahead_case(rng) for _ in range(n // 4)], compare=False)]
+                Suite("read_ahead_pipeline(oracle only)", execgen.HEADER, [execgen.gen_readahead_case(rng) for _ in range(n // 4)], compare=False),
+                # the unbounded close after a bounded close that timed out (which cancels the streams) or after cancel_all_streams(): it must
+                # still wait for everything buffered / in flight (oracle only; concurrency limit 1)
+                Suite("close_again(oracle only)", execgen.HEADER, [execgen.gen_reclose_case(rng) for _ in range(n // 3)], compare=False)]
     def oracle(self, case, recs): return execgen.oracle_c06(case, recs)
     def nontrivial(self, case, recs):
         m = case.meta; return m["profile"] == "exec" and len(m["items"]) >= 2 and m["kind"] in ("ff", "fn", "fb")
